@@ -70,6 +70,19 @@
 #define FQSEL_int verif_real_forward_query(int
 #define FQSEL_bind_fd verif_stub_forward_query(bind_fd
 #define forward_query(a, b) FQSEL_##a, b)
+#if defined(VERIF_NSLOTS) && VERIF_NSLOTS == 2
+/* routing groups: the outpacket helpers are replaced by their contract (proved in group srv_outpacket_queue) */
+#define SNSEL_int verif_real_start_new_outpacket(int
+#define SNSEL_userid verif_stub_start_new_outpacket(userid
+#define SNSEL_touser verif_stub_start_new_outpacket(touser
+#define start_new_outpacket(a, b, c) SNSEL_##a, b, c)
+#define SQSEL_int verif_real_save_to_outpacketq(int
+#define SQSEL_userid verif_stub_save_to_outpacketq(userid
+#define SQSEL_touser verif_stub_save_to_outpacketq(touser
+#define save_to_outpacketq(a, b, c) SQSEL_##a, b, c)
+static void verif_stub_start_new_outpacket(int userid, char *data, int datalen);
+static int verif_stub_save_to_outpacketq(int userid, char *data, int datalen);
+#endif
 #define recvfrom verif_recvfrom
 #define uncompress verif_uncompress
 #define compress2 verif_compress2
@@ -147,6 +160,7 @@ static int g_tun_writes, g_raw_sends, g_sendto;
 static int g_login_seed, g_login_calls, g_login_seed2;
 static unsigned char g_login_out[16], g_login_out2[16];
 size_t g_m;
+static const void *g_cpy_dst, *g_cpy_src; static size_t g_cpy_n; static int g_cpy_calls;
 
 int nondet_int(void);
 unsigned nondet_unsigned(void);
@@ -214,6 +228,7 @@ void *verif_memcpy_t(void *dst, const void *src, size_t n)
 	__CPROVER_assert(__CPROVER_w_ok(dst, n), "memcpy: destination writable for n bytes");
 	if (__CPROVER_same_object(dst, &slot)) {      /* (with the 1-slot table, &slot is the table itself) */
 		size_t off = __CPROVER_POINTER_OFFSET(dst);
+		g_cpy_dst = dst; g_cpy_src = src; g_cpy_n = n; g_cpy_calls++;      /* ghost: last copy into a session member */
 #if defined(VERIF_SHRUNK_TU) && VERIF_NSLOTS > 1
 		/* the session table is one object: slot index and offset inside the slot, both literals at every call site */
 		size_t sidx = off / sizeof(struct tun_user);
@@ -315,6 +330,10 @@ size_t verif_strlen(const char *s) { size_t n = nondet_size_t(); __CPROVER_assum
 #undef handle_ns_request
 #undef handle_a_request
 #undef forward_query
+#if defined(VERIF_NSLOTS) && VERIF_NSLOTS == 2
+#undef start_new_outpacket
+#undef save_to_outpacketq
+#endif
 #undef recvfrom
 #undef uncompress
 #undef compress2
@@ -418,7 +437,8 @@ int find_available_user(void)
 }
 void user_switch_codec(int userid, const struct encoder *enc) { if (userid < 0 || userid >= 1) return; users[userid].encoder = enc; }
 void user_set_conn_type(int userid, enum connection c) { if (userid < 0 || userid >= 1) return; if (c < CONN_RAW_UDP || c >= CONN_MAX) return; users[userid].conn = c; }
-int write_tun(int fd, char *data, size_t len) { g_tun_writes++; return (int)len; }
+static const void *g_tun_data; static size_t g_tun_len;
+int write_tun(int fd, char *data, size_t len) { g_tun_writes++; g_tun_data = data; g_tun_len = len; return (int)len; }
 char *format_addr(struct sockaddr_storage *a, int l) { static char b[8]; return b; }
 static unsigned char g_sent[24]; static size_t g_sent_len; static const void *g_sent_to, *g_sent_buf; static int g_sent_fd; static socklen_t g_sent_tolen;
 ssize_t verif_sendto(int fd, const void *buf, size_t len, int flags, const struct sockaddr *to, socklen_t tolen)
@@ -467,8 +487,9 @@ static int verif_stub_answer_from_qmem(int dns_fd, struct query *q, unsigned cha
 
 #if defined(STUB_HELPERS) && defined(STUB_CONTRACTS)
 /* contract stubs of the stream helpers (each contract is proved on the real helper in its own group) */
-static int g_chunk_calls, g_ack_calls, g_full_calls, g_cache_hits, g_qmem_hits;
+static int g_chunk_calls, g_ack_calls, g_full_calls, g_cache_hits, g_qmem_hits, g_chunk_user;
 static void any_outstream(void);
+static void any_outstream_u1(void);
 static void count_answer(struct query *q)
 {
 	if (g_answers < 4) g_ans_id[g_answers] = q->id;
@@ -476,12 +497,20 @@ static void count_answer(struct query *q)
 }
 static int verif_stub_send_chunk_or_dataless(int dns_fd, int userid, struct query *q)
 {
+#if defined(VERIF_NSLOTS) && VERIF_NSLOTS > 1
+	__CPROVER_assert((userid == 0 && (q == &users[0].q || q == &users[0].q_sendrealsoon)) || (userid == 1 && (q == &users[1].q || q == &users[1].q_sendrealsoon)), "send_chunk_or_dataless is called for a query held by the session");
+	g_chunk_user = userid;
+#else
 	__CPROVER_assert(userid == 0 && (q == &users[0].q || q == &users[0].q_sendrealsoon), "send_chunk_or_dataless is called for a query held by the session");
+#endif
 	__CPROVER_assert(q->id != 0, "send_chunk_or_dataless precondition: the query has not been answered yet (id != 0)");
 	g_chunk_calls++;
 	count_answer(q);
 	if (q->id2 != 0) { q->id = q->id2; count_answer(q); }
 	q->id = 0;
+#if defined(VERIF_NSLOTS) && VERIF_NSLOTS > 1
+	if (userid == 1) any_outstream_u1(); else
+#endif
 	any_outstream();
 	return nondet_bool();
 }
@@ -899,6 +928,16 @@ static void any_outstream(void)
 	slot.outpacketq_filled = nondet_int(); slot.outpacketq_nexttouse = nondet_int();
 	slot.dnscache_lastfilled = nondet_int(); slot.qmemping_lastfilled = nondet_int(); slot.qmemdata_lastfilled = nondet_int();
 	__CPROVER_assume(SESSION_WF(slot));
+}
+static void any_outstream_u1(void)
+{
+#if defined(VERIF_NSLOTS) && VERIF_NSLOTS > 1
+	users[1].outpacket.len = nondet_int(); users[1].outpacket.offset = nondet_int(); users[1].outpacket.sentlen = nondet_int();
+	users[1].outpacket.fragment = (char)nondet_int(); users[1].outpacket.seqno = (char)nondet_int(); users[1].outfragresent = nondet_int();
+	users[1].outpacketq_filled = nondet_int(); users[1].outpacketq_nexttouse = nondet_int();
+	users[1].dnscache_lastfilled = nondet_int(); users[1].qmemping_lastfilled = nondet_int(); users[1].qmemdata_lastfilled = nondet_int();
+	__CPROVER_assume(SESSION_WF(users[1]));
+#endif
 }
 int recent_seqno(int ourseqno, int gotseqno) { return nondet_bool(); }
 #define TOKENS(qq) ((qq).id != 0 ? 1 + ((qq).id2 != 0) : 0)
@@ -1343,6 +1382,186 @@ void h_ns_a_request(void)
 	__CPROVER_assert(g_sendto == (g_enc_calls == 1 && g_enc_ret >= 1), "one datagram when the answer could be built, none otherwise");
 	__CPROVER_assert(!g_sendto || (g_sent_fd == 8 && g_sent_buf == g_enc_buf && g_sent_len == (size_t)g_enc_ret && g_sent_to == (const void *)&g_q.from && g_sent_tolen == g_q.fromlen), "exactly the built message goes back to the asker");
 	__CPROVER_assert(PRIV_UNCHANGED(s0) && g_answers == 0 && g_tun_writes == 0, "auxiliary answers touch no session");
+	VERIF_REACH();
+}
+#endif
+
+
+/* ---- routing of delivered packets and of packets from the tun device, on a TWO-slot session table ----------------
+ * (C04: a packet for tunnel address A goes only to the live logged-in session that owns A, otherwise it is dropped;
+ *  C01: the bytes handed on are exactly the bytes received / inflated; C14: a held query is answered at most once)
+ * handle_full_packet(sender = slot 0) and tunnel_tun, destination slot t in {-1, 0, 1} chosen by the contract stub of
+ * find_user_by_ip (proved on the 16-slot table in group find_user_by_ip).  Slot indices are literals by case split. */
+#if defined(H_NET) && defined(VERIF_NSLOTS) && VERIF_NSLOTS == 2
+static int g_fubi_ret, g_fubi_calls; static in_addr_t g_fubi_ip; static _Bool g_fubi_is_dst;
+static const void *g_unz_dst, *g_rt_buf;
+int find_user_by_ip(uint32_t ip)
+{
+	g_fubi_calls++; g_fubi_ip = ip;
+	{	/* ghost: is this the destination address of the packet at hand (inflated packet / packet read from tun, behind the 4-byte tun header)? */
+		const char *pkt = g_unz_dst ? (const char *)g_unz_dst : (const char *)g_rt_buf;
+		g_fubi_is_dst = pkt && ip == ((const struct ip *)(pkt + 4))->ip_dst.s_addr;
+	}
+	/* contract: -1, or the first live, logged-in session that owns the address.  The three outcomes are separate
+	 * obligation groups (H_DEST = -1, 0, 1) so that the slot index is a literal in each */
+#ifndef H_DEST
+#define H_DEST -1
+#endif
+	__CPROVER_assume(g_fubi_ret == H_DEST);
+#if H_DEST >= 0
+	__CPROVER_assume(users[H_DEST].active && users[H_DEST].authenticated && !users[H_DEST].disabled && users[H_DEST].last_pkt + 60 > g_now && users[H_DEST].tun_ip == ip);
+#endif
+	return H_DEST;
+}
+static int g_unz_calls, g_unz_rc; static const void *g_unz_src; static unsigned long g_unz_srclen, g_unz_out;
+int verif_uncompress(unsigned char *dest, unsigned long *destLen, const unsigned char *source, unsigned long sourceLen)
+{
+	/* zlib (external, A7): writes at most *destLen bytes, sets *destLen on success; the output buffer is an uninitialised local = arbitrary */
+	__CPROVER_assert(__CPROVER_w_ok(dest, *destLen), "uncompress: output writable for *destLen bytes");
+	__CPROVER_assert(sourceLen == 0 || __CPROVER_r_ok(source, sourceLen), "uncompress: input readable for sourceLen bytes");
+	g_unz_calls++; g_unz_src = source; g_unz_srclen = sourceLen; g_unz_dst = dest;
+	unsigned long n = nondet_size_t();
+	__CPROVER_assume(n <= *destLen);
+	g_unz_rc = nondet_bool() ? 0 : -3;
+	if (g_unz_rc == 0) { *destLen = n; g_unz_out = n; }
+	return g_unz_rc;
+}
+static int g_z_calls; static const void *g_z_src, *g_z_dst; static unsigned long g_z_srclen, g_z_out;
+int verif_compress2(unsigned char *dest, unsigned long *destLen, const unsigned char *source, unsigned long sourceLen, int level)
+{
+	__CPROVER_assert(__CPROVER_w_ok(dest, *destLen), "compress2: output writable for *destLen bytes");
+	__CPROVER_assert(sourceLen == 0 || __CPROVER_r_ok(source, sourceLen), "compress2: input readable for sourceLen bytes");
+	g_z_calls++; g_z_src = source; g_z_srclen = sourceLen; g_z_dst = dest;
+	unsigned long n = nondet_size_t();
+	__CPROVER_assume(n <= *destLen);
+	*destLen = n; g_z_out = n;
+	return 0;
+}
+static int g_rt_ret, g_rt_calls;
+ssize_t read_tun(int fd, char *buf, size_t len)
+{
+	__CPROVER_assert(__CPROVER_w_ok(buf, len), "read_tun: buffer writable for len bytes");
+	g_rt_calls++; g_rt_buf = buf;
+	__CPROVER_assume(g_rt_ret >= -1 && (size_t)(g_rt_ret < 0 ? 0 : g_rt_ret) <= len);
+	return g_rt_ret;
+}
+#define CAPLEN(n) ((n) < (int)sizeof(users[0].outpacket.data) ? (n) : (int)sizeof(users[0].outpacket.data))
+/* contracts of the outpacket helpers (group srv_outpacket_queue), slot index literal at every call site */
+static int g_new_calls, g_new_user, g_new_n, g_save_calls, g_save_user, g_save_n; static const void *g_new_src, *g_save_src;
+static void verif_stub_start_new_outpacket(int userid, char *data, int datalen)
+{
+	__CPROVER_assert(userid == 0 || userid == 1, "start_new_outpacket: existing session");
+	__CPROVER_assert(datalen >= 0 && (datalen == 0 || __CPROVER_r_ok(data, CAPLEN(datalen))), "start_new_outpacket: source readable for the bytes copied");
+	g_new_calls++; g_new_user = userid; g_new_src = data; g_new_n = datalen;
+	users[userid].outpacket.len = CAPLEN(datalen); users[userid].outpacket.offset = 0; users[userid].outpacket.sentlen = 0;
+	users[userid].outpacket.seqno = (users[userid].outpacket.seqno + 1) & 7; users[userid].outpacket.fragment = 0; users[userid].outfragresent = 0;
+	verif_any_payload(&users[userid].outpacket);
+}
+static int verif_stub_save_to_outpacketq(int userid, char *data, int datalen)
+{
+	__CPROVER_assert(userid == 0 || userid == 1, "save_to_outpacketq: existing session");
+	__CPROVER_assert(datalen >= 0 && (datalen == 0 || __CPROVER_r_ok(data, CAPLEN(datalen))), "save_to_outpacketq: source readable for the bytes copied");
+	g_save_calls++; g_save_user = userid; g_save_src = data; g_save_n = datalen;
+	if (users[userid].outpacketq_filled >= OUTPACKETQ_LEN) return 0;
+	users[userid].outpacketq_filled++;
+	return 1;
+}
+struct snap2 { int active, authenticated, authenticated_raw, q_id, qs_id, out_len, out_off, in_len, in_off, qfilled, qnext, fragsize; char out_seq, out_frag; enum connection conn; time_t last_pkt; unsigned short q_id2, qs_id2; };
+#define TAKE2(u) { (u).active, (u).authenticated, (u).authenticated_raw, (u).q.id, (u).q_sendrealsoon.id, (u).outpacket.len, (u).outpacket.offset, (u).inpacket.len, (u).inpacket.offset, (u).outpacketq_filled, (u).outpacketq_nexttouse, (u).fragsize, (u).outpacket.seqno, (u).outpacket.fragment, (u).conn, (u).last_pkt, (u).q.id2, (u).q_sendrealsoon.id2 }
+#define SAME2(u, s) ((u).active == (s).active && (u).authenticated == (s).authenticated && (u).authenticated_raw == (s).authenticated_raw && (u).q.id == (s).q_id && (u).q_sendrealsoon.id == (s).qs_id && \
+	(u).outpacket.len == (s).out_len && (u).outpacket.offset == (s).out_off && (u).inpacket.len == (s).in_len && (u).inpacket.offset == (s).in_off && (u).outpacketq_filled == (s).qfilled && (u).outpacketq_nexttouse == (s).qnext && \
+	(u).fragsize == (s).fragsize && (u).outpacket.seqno == (s).out_seq && (u).outpacket.fragment == (s).out_frag && (u).conn == (s).conn && (u).last_pkt == (s).last_pkt && (u).q.id2 == (s).q_id2 && (u).q_sendrealsoon.id2 == (s).qs_id2)
+/* everything of a slot except its upstream reassembly position */
+#define SAME2_BUT_IN(u, s) ((u).active == (s).active && (u).authenticated == (s).authenticated && (u).authenticated_raw == (s).authenticated_raw && (u).q.id == (s).q_id && (u).q_sendrealsoon.id == (s).qs_id && \
+	(u).outpacket.len == (s).out_len && (u).outpacket.offset == (s).out_off && (u).outpacketq_filled == (s).qfilled && (u).outpacketq_nexttouse == (s).qnext && \
+	(u).fragsize == (s).fragsize && (u).outpacket.seqno == (s).out_seq && (u).outpacket.fragment == (s).out_frag && (u).conn == (s).conn && (u).last_pkt == (s).last_pkt && (u).q.id2 == (s).q_id2 && (u).q_sendrealsoon.id2 == (s).qs_id2)
+static void any_server_state2(void)
+{
+	any_server_state();
+	created_users = 2;
+	__CPROVER_assume(SESSION_WF(users[1]));
+	__CPROVER_assume(users[0].conn == CONN_DNS_NULL || users[0].conn == CONN_RAW_UDP);      /* user_set_conn_type admits nothing else */
+	__CPROVER_assume(users[1].conn == CONN_DNS_NULL || users[1].conn == CONN_RAW_UDP);
+	g_chunk_calls = g_fubi_calls = g_unz_calls = g_z_calls = g_rt_calls = g_cpy_calls = 0; g_chunk_user = -1; g_unz_dst = 0; g_rt_buf = 0; g_new_calls = g_save_calls = 0;
+}
+#define TOK(u) (((u).q.id != 0 ? 1 + ((u).q.id2 != 0) : 0) + ((u).q_sendrealsoon.id != 0 ? 1 + ((u).q_sendrealsoon.id2 != 0) : 0))
+
+/* what the destination slot must look like after a packet of n bytes (source src) was handed to it; t is a literal */
+#define CHECK_DELIVERY_TO(t, st, src, n) do { \
+	if ((st).conn == CONN_DNS_NULL) { \
+		__CPROVER_assert(g_sendto == 0, "a DNS-mode destination gets no raw datagram"); \
+		if ((st).out_len == 0) { \
+			__CPROVER_assert(g_new_calls == 1 && g_save_calls == 0 && g_new_user == t && g_new_src == (const void *)(src) && g_new_n == (n), "the packet becomes the destination's next downstream packet as is (same bytes, same length)"); \
+			__CPROVER_assert(g_chunk_calls <= 1 && (g_chunk_calls == 0 || g_chunk_user == t) && g_chunk_calls == ((st).q_id != 0 || (st).qs_id != 0), "a query held by the destination session is answered at once, exactly one, and nobody else's"); \
+		} else { \
+			__CPROVER_assert(g_chunk_calls == 0 && g_answers == 0, "a busy destination only queues the packet, nothing is emitted"); \
+			__CPROVER_assert(users[t].outpacket.len == (st).out_len && users[t].outpacket.offset == (st).out_off && users[t].outpacket.seqno == (st).out_seq && users[t].outpacket.fragment == (st).out_frag, "the packet in flight is not disturbed"); \
+			__CPROVER_assert(g_save_calls == 1 && g_new_calls == 0 && g_save_user == t && g_save_src == (const void *)(src) && g_save_n == (n), "the packet is offered to the destination's queue as is (same bytes, same length)"); \
+		} \
+	} else { \
+		__CPROVER_assert(g_answers == 0 && g_chunk_calls == 0 && g_new_calls == 0 && g_save_calls == 0, "a raw-mode destination gets no DNS answer and no downstream packet"); \
+		__CPROVER_assert(g_sendto == 1 && g_sent_to == (const void *)&users[t].q.from && g_sent[3] == (RAW_HDR_CMD_DATA | t), "one raw data datagram to the destination session's address, marked with its userid"); \
+		__CPROVER_assert(SAME2_BUT_IN(users[t], st), "raw delivery changes nothing in the destination session"); \
+	} } while (0)
+
+void h_full_packet(void)
+{
+	any_server_state2();
+	struct dnsfd fds = { 11, 12 };
+	g_fubi_ret = nondet_int();
+	__CPROVER_assume(g_fubi_ret >= -1 && g_fubi_ret <= 1);
+	struct snap2 a0 = TAKE2(users[0]), a1 = TAKE2(users[1]);
+	int inlen0 = users[0].inpacket.len;
+	int before = TOK(users[0]) + TOK(users[1]);
+	handle_full_packet(7, &fds, 0);
+	__CPROVER_assert(g_unz_calls == 1 && g_unz_src == (const void *)users[0].inpacket.data && g_unz_srclen == (unsigned long)inlen0, "zlib is given exactly the sender's reassembled bytes");
+	__CPROVER_assert(users[0].inpacket.len == 0 && users[0].inpacket.offset == 0, "the reassembly buffer is released");
+	__CPROVER_assert(g_answers + TOK(users[0]) + TOK(users[1]) <= before, "no surplus answer: every answer consumes a held query");
+	if (g_unz_rc != 0) {
+		__CPROVER_assert(g_tun_writes == 0 && g_sendto == 0 && g_answers == 0 && g_fubi_calls == 0 && SAME2_BUT_IN(users[0], a0) && SAME2(users[1], a1), "a packet that does not inflate is dropped: nothing delivered, forwarded or changed");
+	} else {
+		__CPROVER_assert(g_fubi_calls == 1 && g_fubi_is_dst, "the destination is looked up by the destination address of the inflated packet");
+		if (g_fubi_ret == -1) {
+			__CPROVER_assert(g_tun_writes == 1 && g_tun_data == g_unz_dst && g_tun_len == g_unz_out, "a packet for no session goes to the tun device: exactly zlib's bytes and length");
+			__CPROVER_assert(g_sendto == 0 && g_answers == 0 && SAME2_BUT_IN(users[0], a0) && SAME2(users[1], a1), "and nothing else happens");
+		} else if (g_fubi_ret == 0) {
+			__CPROVER_assert(g_tun_writes == 0 && SAME2(users[1], a1), "a packet for session 0 is not written to tun and does not touch session 1");
+			CHECK_DELIVERY_TO(0, a0, users[0].inpacket.data, inlen0);
+		} else {
+			__CPROVER_assert(g_tun_writes == 0 && SAME2_BUT_IN(users[0], a0), "a packet for session 1 is not written to tun and changes nothing else in the sender's session");
+			CHECK_DELIVERY_TO(1, a1, users[0].inpacket.data, inlen0);
+		}
+	}
+	__CPROVER_assert(SESSION_WF(users[0]) && SESSION_WF(users[1]), "the session invariant is preserved");
+	VERIF_REACH();
+}
+
+void h_tunnel_tun(void)
+{
+	any_server_state2();
+	struct dnsfd fds = { 11, 12 };
+	g_fubi_ret = nondet_int(); g_rt_ret = nondet_int();
+	__CPROVER_assume(g_fubi_ret >= -1 && g_fubi_ret <= 1);
+	struct snap2 a0 = TAKE2(users[0]), a1 = TAKE2(users[1]);
+	int before = TOK(users[0]) + TOK(users[1]);
+	int r = tunnel_tun(7, &fds);
+	__CPROVER_assert(g_rt_calls == 1 && g_tun_writes == 0, "one packet is read, nothing is written back to tun");
+	__CPROVER_assert(g_answers + TOK(users[0]) + TOK(users[1]) <= before, "no surplus answer: every answer consumes a held query");
+	if (g_rt_ret <= 0 || g_fubi_ret == -1) {
+		/* C04: otherwise dropped */
+		__CPROVER_assert(r == 0 && g_sendto == 0 && g_answers == 0 && g_chunk_calls == 0 && SAME2(users[0], a0) && SAME2(users[1], a1), "no packet, or a packet for an address no live logged-in session owns: dropped, nothing sent or changed");
+	} else {
+		__CPROVER_assert(g_fubi_calls == 1 && g_fubi_is_dst, "the session is looked up by the packet's destination address (behind the 4-byte tun header)");
+		__CPROVER_assert(g_z_calls == 1 && g_z_src == g_rt_buf && g_z_srclen == (unsigned long)g_rt_ret, "exactly the bytes read from tun are compressed");
+		if (g_fubi_ret == 0) {
+			__CPROVER_assert(SAME2(users[1], a1), "a packet for session 0 does not touch session 1");
+			CHECK_DELIVERY_TO(0, a0, g_z_dst, (int)g_z_out);
+		} else {
+			__CPROVER_assert(SAME2(users[0], a0), "a packet for session 1 does not touch session 0");
+			CHECK_DELIVERY_TO(1, a1, g_z_dst, (int)g_z_out);
+		}
+	}
+	__CPROVER_assert(SESSION_WF(users[0]) && SESSION_WF(users[1]), "the session invariant is preserved");
 	VERIF_REACH();
 }
 #endif
